@@ -198,6 +198,16 @@ pub fn get_latest_address_lp_weight(s: &Storage, address: &Addr, lp_denom: &Str,
             && s.weights@[(address@, lp_denom@, r->Ok_0.0)] == r->Ok_0.1 && forall|e: u64| has_weight(*s, address@, lp_denom@, e) ==> e <= r->Ok_0.0,
         (forall|e: u64| !has_weight(*s, address@, lp_denom@, e)) ==> r->Ok_0.0 == *epoch_id && r->Ok_0.1@ == 0,
 { unimplemented!() }
+/// state.rs `get_address_lp_weight_at_or_before`: descending prefix range bounded (inclusive) by `epoch_id`, first item
+#[verifier::external_body]
+pub fn get_address_lp_weight_at_or_before(s: &Storage, address: &Addr, lp_denom: &Str, epoch_id: &u64) -> (r: Result<Option<(u64, Uint128)>, ContractError>)
+    ensures match r {
+        Ok(Some(x)) => x.0 <= *epoch_id && has_weight(*s, address@, lp_denom@, x.0) && s.weights@[(address@, lp_denom@, x.0)] == x.1
+            && forall|e: u64| has_weight(*s, address@, lp_denom@, e) && e <= *epoch_id ==> e <= x.0,
+        Ok(None) => forall|e: u64| e <= *epoch_id ==> !has_weight(*s, address@, lp_denom@, e),
+        Err(_) => true,
+    }
+{ unimplemented!() }
 #[verifier::external_body]
 pub fn has_any_lp_weight(s: &Storage, address: &Addr, lp_denom: &Str) -> (r: Result<bool, ContractError>)
     ensures r is Ok, r->Ok_0 == exists|e: u64| has_weight(*s, address@, lp_denom@, e),
